@@ -31,7 +31,7 @@ DEAD = "sensor_level > 2000"
 LIVE = "sensor_level >= 0"
 
 
-N_KINDS = 23
+N_KINDS = 25
 
 
 def _cint(rng, d):
@@ -68,7 +68,7 @@ def const_expr(rng):
 
 def site(rng, k):
     """A fold site: returns dict(kind, decl(var form), use_lit, use_var, var, mutate(value-change line), finding keys)."""
-    kinds = ["sleep", "brightness", "blink", "len-str", "len-list", "flash-pattern", "glyph", "rgb", "fade", "ultra-model", "servo-bounds", "range-count", "expr-fold", "const-arith", "param-shadow", "led-rebind", "swap-fold", "aug-fold", "twin-literals", "remove-dup", "reset-same-const", "single-pass-for", "len-arg-twice"]
+    kinds = ["sleep", "brightness", "blink", "len-str", "len-list", "flash-pattern", "glyph", "rgb", "fade", "ultra-model", "servo-bounds", "range-count", "expr-fold", "const-arith", "param-shadow", "led-rebind", "swap-fold", "aug-fold", "twin-literals", "remove-dup", "reset-same-const", "single-pass-for", "len-arg-twice", "derived-after-change", "tuple-new-from-changed"]
     assert len(kinds) == N_KINDS
     kind = kinds[k % len(kinds)]
     v = f"v{k}"
@@ -126,6 +126,21 @@ def site(rng, k):
         p1, p2 = rng.choice([(6, 8), (16, 17)])
         use = f"ld{k} = Led({p1})\nld{k}.on()\nsleep(2)\nld{k} = Led({p2 - 2} + 2)\nld{k}.on()\nld{k}.off()"
         lit = f"la{k} = Led({p1})\nla{k}.on()\nsleep(2)\nlb{k} = Led({p2})\nlb{k}.on()\nlb{k}.off()"
+        return dict(kind=kind, var=v, decl=f"{v} = 0", lit=lit, use=use, expr=use, mut=None, mut_lit=None, whole=True)
+    if kind in ("derived-after-change", "tuple-new-from-changed"):
+        # a new global derived from a name whose value changed since its first assignment (straight-line, or inside a top-level block
+        # that runs at start-up): the derived value is computed at that program point, not from the first value
+        a0, d = rng.choice([(2, 1), (10, 5), (0, 3)])
+        how = rng.choice(["plain", "for", "if", "while"])
+        chg = {"plain": f"g{k} = {a0 + 3 * d}", "for": f"for q{k} in range(3):\n    g{k} = g{k} + {d}", "if": f"if {LIVE}:\n    g{k} = g{k} + {3 * d}",
+               "while": f"w{k} = 3\nwhile w{k} > 0:\n    w{k} -= 1\n    g{k} += {d}"}[how]
+        a1 = a0 + 3 * d
+        if kind == "derived-after-change":
+            use = f"g{k} = {a0}\n{chg}\nh{k} = g{k} * 3\nmon.write(h{k})\nsleep(h{k} + 1)"
+            lit = f"mon.write({a1 * 3})\nsleep({a1 * 3 + 1})"
+        else:
+            use = f"g{k} = {a0}\n{chg}\nh{k}, j{k} = g{k}, {d}\nmon.write(h{k})\nmon.write(j{k})\nsleep(h{k} + j{k})"
+            lit = f"mon.write({a1})\nmon.write({d})\nsleep({a1 + d})"
         return dict(kind=kind, var=v, decl=f"{v} = 0", lit=lit, use=use, expr=use, mut=None, mut_lit=None, whole=True)
     if kind == "reset-same-const":
         # a name set back to the constant it was initialised with, after a block (taken at run time) changed it: all stores count
@@ -396,7 +411,7 @@ def main() -> int:
         if not rep.counters.get("compared:" + k[5:]):
             rep.inconclusive_because(f"fold site {k[5:]}: no pair reached the four-way comparison (all rejected or discarded)")
     witness.check_witnesses(rep)
-    rep.rule = ("pairs (P, P') over 23 fold sites (reset to the initial constant, single-pass loop with break, the same len() argument twice around a mutation, sleep, brightness, blink, len of str, len of list, flash pattern, glyph bitmap, RGB colour, fade duration/steps, "
+    rep.rule = ("pairs (P, P') over 25 fold sites (a global derived from a name changed earlier - alone or in a tuple assignment -, reset to the initial constant, single-pass loop with break, the same len() argument twice around a mutation, sleep, brightness, blink, len of str, len of list, flash pattern, glyph bitmap, RGB colour, fade duration/steps, "
                 "ultrasonic model name, servo bounds, range count, arithmetic) x transformations {literal -> variable, literal -> name-free expression, mutation "
                 "in a branch never taken at run time, mutation in a loop run 0 times, mutation in a branch always taken (vs the program written with the new "
                 "literal)}, in setup() or the main loop; branch conditions read a scripted analog input so the folder cannot decide them. All four executions must "
